@@ -85,6 +85,7 @@ def groups(tier, seed):
     yield {'kind': 'window'}
     yield {'kind': 'agg'}
     yield {'kind': 'ignore'}
+    yield {'kind': 'sealed'}
     yield {'kind': 'config'}
     yield {'kind': 'rxroot'}
     yield {'kind': 'tz'}
@@ -215,6 +216,36 @@ def eval_group(env, group, tier):
                     want = [(k_, str(len(v_)), str(sum(v_))) for k_, v_ in sorted(groups_.items())][:N]
                     emit(['agg-grouped', w, N], o.rc == 0 and not o.err and o.rows(3) == want, 'aggregate-over-members',
                          dict(o.brief(), query=q, expected=want), layer='aggregate')
+        elif kind == 'sealed':
+            # members that cannot be unpacked here (encrypted, unknown compression method) are members all the same
+            import io as _io
+            import struct as _st
+            b_ = _io.BytesIO()
+            with zipfile.ZipFile(b_, 'w') as z:
+                for nm, n in (('m1', 3), ('secret', 11), ('m3', 5), ('ppmd', 7), ('m5', 2)):
+                    z.writestr(zipfile.ZipInfo(nm, (2020, 1, 2, 3, 4, 6)), b'x' * n)
+            data = bytearray(b_.getvalue())
+            pos, idx = 0, 0
+            while True:                               # central directory records, in order
+                pos = bytes(data).find(b'PK\x01\x02', pos)
+                if pos < 0:
+                    break
+                loc = _st.unpack('<I', data[pos + 42:pos + 46])[0]
+                if idx == 1:                          # `secret`: encrypted flag in both headers
+                    data[pos + 8] |= 1
+                    data[loc + 6] |= 1
+                if idx == 3:                          # `ppmd`: compression method 98
+                    data[pos + 10:pos + 12] = _st.pack('<H', 98)
+                    data[loc + 8:loc + 10] = _st.pack('<H', 98)
+                pos += 4
+                idx += 1
+            core.materialise(root, {'sealed.zip': F(data=bytes(data)), 'plain': F(1)})
+            for q, want in (('name, size from . archives where name != sealed.zip into list',
+                             [('[sealed.zip] m1', '3'), ('[sealed.zip] secret', '11'), ('[sealed.zip] m3', '5'), ('[sealed.zip] ppmd', '7'), ('[sealed.zip] m5', '2'), ('plain', '1')]),
+                            ('count(*), sum(size) from . archives where name != sealed.zip into list', [('6', '29')])):
+                o = env.run([q], cwd=root)
+                emit(['sealed', q], o.rc == 0 and not o.err and sorted(o.rows(2) or []) == sorted(want), 'member-that-cannot-be-unpacked-missing',
+                     dict(o.brief(), query=q, expected=want), layer='sealed')
         elif kind == 'ignore':
             # an archive that the ignore rules remove contributes no member either; everything else is unchanged
             z = zbytes(MEMBERS[:2])
